@@ -7,4 +7,5 @@ MODULES = [
     "composite",
     "nameditemlist",
     "odxlink",
+    "compu",
 ]
